@@ -119,6 +119,12 @@ func (pt *pullTrace) trusted(digest string) bool {
 	return lt != nil && lt.downloads == 0 && lt.cached > 0
 }
 
+type pullResult struct {
+	m      *regModel
+	ok     bool
+	detail string
+}
+
 type regWorld struct {
 	t     *testing.T
 	sim   *verifsim.Sim
@@ -136,6 +142,7 @@ type regWorld struct {
 	lastOps  int
 	phase    string
 	inflight []*pullTrace
+	finished chan *pullResult // results of the pulls of the current attempt
 	attempt  int            // index of the current attempt
 	pullsOf  map[string]int // current attempt: layer digest -> number of pulls whose model has the layer
 	touched  map[string]bool // layers some earlier attempt has requested
@@ -651,12 +658,9 @@ func (w *regWorld) runAttempt(k int, a regAttempt) {
 	if a.cancelAt > 0 {
 		w.reg.cancelAt = w.reg.nreq + a.cancelAt
 	}
-	type result struct {
-		m      *regModel
-		ok     bool
-		detail string
-	}
+	type result = pullResult
 	finished := make(chan *result, len(a.models))
+	w.finished = finished
 	for i, mi := range a.models {
 		m := w.models[mi]
 		name := m.pullName
@@ -689,8 +693,9 @@ func (w *regWorld) runAttempt(k int, a regAttempt) {
 	// wait for the pulls of this attempt
 	for range a.models {
 		<-finished
-		verifsim.Yield("driver:pull-finished")
+		verifsim.Yield("driver:pull-finished") // (a driver of a dead process is unwound here)
 	}
+	w.finished = nil
 	cancel()
 	w.reg.cancelAt = 0
 	w.ctl.CrashAt = -1
@@ -801,12 +806,26 @@ func (w *regWorld) driver(from int, restarted bool, done *bool) {
 	*done = true
 }
 
+// releaseBlocked wakes what a dead process (or an aborted run) left blocked in
+// harness-level waits, so that those goroutines reach their next yield, are
+// unwound there and do not pile up over the runs of a worker process.
+func (w *regWorld) releaseBlocked() {
+	if w.reg.cancelFn != nil {
+		w.reg.cancelFn()
+	}
+	if w.finished != nil {
+		close(w.finished)
+		w.finished = nil
+	}
+}
+
 // afterCrash: the process died during an attempt; the registry is another machine and lives on.
 func (w *regWorld) afterCrash() {
 	w.note("process died in attempt %d: %s", w.attempt+1, strings.ReplaceAll(w.ctl.Crashed, filepath.Dir(w.dir), ""))
 	w.inflight = nil
 	w.ctl.CrashAt = -1
 	w.reg.cancelAt = 0
+	w.releaseBlocked()
 	if w.touched == nil {
 		w.touched = map[string]bool{}
 	}
@@ -867,10 +886,12 @@ func runRegistry(t *testing.T, tape *verifsim.Tape, prop, tier string, keepLog b
 		// teardown: let the goroutines of the handler and of the client finish (tickers leak by design)
 		w.reg.plan.off = true
 		if stop != verifsim.CondTrue {
+			// aborted run: unwind what is parked, wake what is blocked, and let the leftovers unwind too
 			sim.Crash()
-		} else {
-			sim.RunUntil(nil, 2*time.Second, 3000)
+			sim.ResetCrash()
+			w.releaseBlocked()
 		}
+		sim.RunUntil(nil, 2*time.Second, 5000)
 	})
 	if len(regAssumed) > 0 && len(r.Violations) > 0 && regAssumed[r.Violations[0].Signature] {
 		r.Info["assumed_known "+r.Violations[0].Signature]++
